@@ -487,6 +487,30 @@ def rule_mirror(fx, rep):
     rep.obligation(good)
     if not good:
         bad("mobility-colour-constant", "the per-player mobility routine uses a fixed colour constant", mob)
+    # a per-player routine may step vertically only relative to the player: a fixed `north()` / `south()` in a function of the
+    # evaluation that takes the player as a parameter means "ahead" for one colour and "behind" for the other (seed C16-12a: the
+    # blockade square of a passed pawn taken as `occupancy().south()` for both colours) - unless the call sits under a test of
+    # that player, where each colour gets its own direction
+    for eb in fx.fn_bodies():
+        if not norm(eb.name).startswith("engine::eval::") or "::tests::" in eb.name or eb.kind not in ("Fn", "AssocFn"):
+            continue
+        pparams = [i for i in range(1, eb.arg_count + 1) if eb.local_ty(i).endswith("player::Player")]
+        if not pparams:
+            continue
+        for ebb, et in eb.calls():
+            ecn = norm(callee_name(et) or "")
+            if not (ecn.endswith("Bitboard::north") or ecn.endswith("Bitboard::south")):
+                continue
+            n += 1
+            under_player = False
+            for (ge, gpol, gw) in guard_conditions(eb, ebb, expand_named=True):
+                gd = deep_strip(ge)
+                if any(isinstance(x, tuple) and len(x) >= 2 and x[0] == "arg" and x[1] in pparams for x in walk(gd)):
+                    under_player = True
+            rep.obligation(under_player)
+            if not under_player:
+                bad(f"fixed-direction/{norm(eb.name).split('::')[-1]}", f"`{eb.name}` (line {et.get('line')}) steps `{ecn.split('::')[-1]}` for both colours although it is parameterised on the player: "
+                    "what is in front of a White piece is behind a Black one, so the term is not the mirror image of itself", eb)
     # bishop pair: same bonus added for White, subtracted for Black under the same predicate
     bpb = fx.one("material::bishop_pair_eval")
     n += 1
@@ -510,12 +534,28 @@ def rule_mirror(fx, rep):
             val = deep_strip(bpb.expr(t["args"][1], expand_named=True, at=bb))
             colours = set()
             pred = set()
+            loop_colour = None
             for (e, pol, w) in guard_conditions(bpb, bb, expand_named=True):
                 cs = set()
-                a = abstract_colour(deep_strip(e), cs)
+                d0 = deep_strip(e)
+                a = abstract_colour(d0, cs)
+                if cs == {"White", "Black"} and isinstance(d0, tuple) and d0 and d0[0] == "discr" and isinstance(w, tuple) and len(w) == 2 and "Iterator>::next" in show(d0) and "Some" in show(d0):
+                    # loop form `for player in [White, Black] { .. match player { White => +=, Black => -= } }`: the arm's colour is
+                    # the discriminant value of the loop variable; the remaining conditions are shared by construction
+                    pl = {v["discr"]: v["name"] for v in fx.adt("player::Player")["variants"]}
+                    if isinstance(w[1], int) and w[1] in pl:
+                        loop_colour = pl[w[1]]
+                    elif w[1] == "otherwise":
+                        listed = [v for (v, _t) in bpb.blocks[w[0]]["term"]["targets"]]
+                        rest = [nm for dv, nm in pl.items() if dv not in listed]
+                        loop_colour = rest[0] if len(rest) == 1 else None
+                    continue
                 if cs:
                     colours |= cs
                     pred.add((show(a), str(pol)))
+            if loop_colour is not None:
+                colours = {loop_colour}
+                pred = {(x, y) for (x, y) in pred if "Iterator>::next" in x} or {("loop", "True")}
             found["add" if "add_assign" in cn else "sub"] = (sorted(colours), sorted(pred), val)
     # the same predicate modulo the colour constant: White's adds, Black's subtracts the same bonus
     good = set(found) == {"add", "sub"} and found["add"][2] == found["sub"][2] and found["add"][0] == ["White"] and found["sub"][0] == ["Black"] and \
@@ -1151,6 +1191,8 @@ PH = "src/engine/eval/phased_eval.rs"
 PS = "src/engine/eval/piece_square_tables.rs"
 PA = "src/engine/eval/params.rs"
 MUTANTS = [
+    {"name": "blockade square of a passed pawn as occupancy().south() for both colours (seed C16-12a)", "expect": "C16-MIRROR/fixed-direction",
+     "edits": __import__("shared_mutants").edits_from_patch("seeded/C16-12a/patch.diff")},
     {"name": "blended score faded towards zero by plain i16 multiplication (seed C16-11a)", "expect": "C16-CONE/evalop",
      "edits": __import__("shared_mutants").edits_from_patch("seeded/C16-11a/patch.diff")},
     {"name": "every term blended on its own and the blends added (seed C16-8a)", "expect": "C16-BLEND/once",
